@@ -84,6 +84,21 @@ def analyze(ctx):
             ok = ok and bool(a_lock) and implies(g, f_and(f_not(A(a_run)), A(a_lock[0]))) is None
         else:
             ok = ok and len(lp) >= 2 and pmatch("Q_c.locked", lp[-1][1]) is not None
+            # the entry counted is the transaction the loop is at, and only transactions have an entry
+            i_ = lp[-1][0][0]
+            mt = pmatch("Q_s[Q_i].stat.locked", s.target)
+            gp = py_guard(s)
+            ok = ok and mt is not None and mt["i"] == i_ and lp[-1][1] == ("a", lp[0][0][0], "locked") and equivalent(gp, A(("op", "in", i_, mt["s"]))) is None
+        ok = ok and s.value == ("c", 1)
+    # the per-transaction entry is visited once per cycle in which the transaction is in the running table
+    effs = fn.facts(Effect, lambda e: pmatch("rec(Q_c, Q_s[Q_i], Q_i)", e.call) is not None and len(loops(e)) == 2)
+    okv = False
+    for _, e in effs:
+        lp = loops(e)
+        mv = pmatch("rec(Q_c, Q_s[Q_i], Q_i)", e.call)
+        okv = okv or (lp[0][1] == pat("self.cycles") and mv["c"] == lp[0][0][0] and lp[1][1] == ("a", mv["c"], "running") and mv["i"] == lp[1][0][0] and equivalent(py_guard(e), A(("op", "in", mv["i"], mv["s"]))) is None)
+    ctx.check(okv, "C35.stat-run.visited", effs[0][1].site if effs else fn.site, "analyze_transactions.visit", found="; ".join(f"{tstr(e.call)} if {fstr(py_guard(e))}" for _, e in effs) or "no visit of the running transactions",
+              required="for every cycle and every id in its running table that has a statistics entry, that entry is updated for that id")
     ctx.check(ok, "C35.stat-locked", lock_inc[0][1].site if lock_inc else fn.site, "analyze_transactions.locked", found="; ".join(f"{s.site.split(':')[1]}: {fstr(py_guard(s))[:80]}" for _, s in lock_inc) or "none",
               required="locked is incremented only for ids in the locked table (and, inside the per-id recursion, only when the id is not running): one count per (cycle, id)")
     # iteration over every cycle
